@@ -171,12 +171,14 @@ def render_ace(rec: dict, platform: str, version: str = "0", noise: bool = True)
     ws = rec.get("ws") if noise else None
     if not ws:
         return " ".join(toks)
-    gaps = {0: " ", 1: "  ", 2: "   ", 3: "\t", 4: " \t "}
+    # blanks of every kind the library's whitespace normalisation accepts (copy-paste from documents brings
+    # no-break and em spaces)
+    gaps = {0: " ", 1: "  ", 2: "   ", 3: "\t", 4: " \t ", 5: "\u00a0", 6: " \u2003", 7: " ", 8: " ", 9: "  ", 10: "\t"}
     out = gaps[ws[0] % 5] if ws[0] % 7 == 0 else ""
     for i, tok in enumerate(toks):
         out += tok
         if i + 1 < len(toks):
-            out += gaps[ws[(i + 1) % len(ws)] % 5]
+            out += gaps[ws[(i + 1) % len(ws)] % 11]
     if ws[-1] % 3 == 0:
         out += " "
     return out
